@@ -93,6 +93,7 @@ func checkC08(c *Ctx) {
 	ruleNoteArithmeticAs(c, dv, "AnalogNoteOn", "analogNoteTracker", false, "R8.3")
 	ruleR14analog(c, dv, "R8.6")
 	ruleDispatch(c, dv, "R8.7", false, true)
+	ruleNoDropBeforeCase(c, dv, "R8.9", []string{"AnalogKeySim"}) // and is not dropped by a filter in front of the switch
 	ruleR13(c, dv, "R8.8") // only the analog note functions (and NewDevice) write the trackers: an entry removed elsewhere is a note that is never released // every axis report reaches the key-emulation switch, whatever its raw value
 	pf := newParserFacts(c)
 	if c.Require(pf.err == nil, "R8.5", "config.ParseData", fmt.Sprint(pf.err)) {
@@ -617,4 +618,88 @@ func ccChannelSide(dv *dev, ch *Term) string {
 		return "pos"
 	}
 	return ""
+}
+
+// ruleNoDropBeforeCase: an event of an axis that emulates keys (actions) always reaches the emulation logic, unless the axis
+// is unmapped or the position is the one already processed: every returning path of handleABSEvent that is consistent with
+// the mapping type T, finds the axis mapped and is not the repeated-value return must enter the `case T` body.  A filter in
+// front of the switch that is meant for controller traffic (the CC-learning gate) otherwise swallows the return to centre:
+// the emulated key is never released although the stick is at rest.
+func ruleNoDropBeforeCase(c *Ctx, dv *dev, rule string, typeConsts []string) {
+	fn := dv.fn["handleABSEvent"]
+	paths, err := absPaths(c, dv)
+	if !c.Require(err == nil, rule, "device.handleABSEvent", fmt.Sprint(err)) {
+		return
+	}
+	lastField := dv.fields["lastAnalogValue"]
+	for _, tc := range typeConsts {
+		tv, ok := c.P.constString(pkgConfig, tc)
+		key := "device.handleABSEvent/every-event-reaches-case[" + tc + "]"
+		pos := c.P.Pos(fn.Pos())
+		ifi, _ := caseIf(fn, dv, tv)
+		if !ok || ifi == nil {
+			c.Undec(rule, key, pos, "case "+tc+" of the mapping-type switch not found")
+			continue
+		}
+		n, bad := 0, ""
+		for _, p := range paths {
+			if p.End != "return" {
+				continue
+			}
+			sel, negs := mappingTypeOf(p)
+			if sel != "" && sel != tv {
+				continue
+			}
+			excluded := false
+			for _, ng := range negs {
+				if ng == tv {
+					excluded = true
+				}
+			}
+			if excluded && sel != tv {
+				continue
+			}
+			unmapped, dup, entered := false, false, false
+			for _, a := range p.Atoms {
+				cnd, taken := a.Cond, a.Taken
+				for cnd.Op == "unop" && cnd.Aux == "!" {
+					cnd, taken = cnd.Args[0], !taken
+				}
+				if cnd.Op == "lookupok" && strings.Contains(cnd.Args[0].String(), ".Analog[") && !taken {
+					unmapped = true
+				}
+				if a.Instr == ifi && a.Taken {
+					entered = true
+				}
+				// the repeated-value filter: lastAnalogValue[..][..] == value
+				if op, x, y, okA := normAtom(a); okA && op == "==" && lastField != nil {
+					if (x.Op == "lookup" && x.LoadsField(lastField)) || (y.Op == "lookup" && y.LoadsField(lastField)) {
+						dup = true
+					}
+				}
+			}
+			if unmapped || dup {
+				continue
+			}
+			n++
+			if !entered && bad == "" {
+				bad = fmt.Sprintf("an event of a mapped %s axis with a new position returns before the emulation logic (%s): the return to centre can be swallowed and the emulated key/action is never released although the stick is at rest", tc, atomsString(p))
+			}
+		}
+		if n == 0 {
+			c.Undec(rule, key, pos, "no returning path consistent with "+tc+" found")
+			continue
+		}
+		c.Check(bad == "", rule, key, pos, fmt.Sprintf("%d returning path(s) of a mapped %s axis with a new position all enter the case body", n, tc), bad)
+	}
+}
+
+// emulationReachRules: R8.9 for both emulation types, for import by C01 (keys) and C04 (actions).
+func emulationReachRules(c *Ctx) {
+	dv := newDev(c, "R8.0")
+	if !dv.ok || dv.fn["handleABSEvent"] == nil {
+		return
+	}
+	ruleNoDropBeforeCase(c, dv, "R8.9", []string{"AnalogKeySim"})
+	ruleNoDropBeforeCase(c, dv, "R8.9a", []string{"AnalogActionSim"})
 }
